@@ -1,10 +1,11 @@
 use crate::engine::runner::RunCfg;
 
 pub mod c03;
+pub mod c05;
 pub mod c16;
 
 pub type RunFn = fn(&RunCfg, Option<&str>) -> i32;
 
 pub fn all() -> Vec<(&'static str, RunFn)> {
-    vec![("C03", c03::run as RunFn), ("C16", c16::run as RunFn)]
+    vec![("C03", c03::run as RunFn), ("C16", c16::run as RunFn), ("C05", c05::run as RunFn)]
 }
